@@ -356,6 +356,13 @@ def nodeOKO : Option Node → Bool
   | none => true
   | some n => nodeOK n
 
+@[simp] theorem tokens_rename (n : Node) (nm : Bytes) : tokens (n.rename nm) = tokens n := by
+  cases n <;> simp [Node.rename, Node.setBase, tokens]
+@[simp] theorem nodeOK_rename (n : Node) (nm : Bytes) : nodeOK (n.rename nm) = nodeOK n := by
+  cases n <;> simp [Node.rename, Node.setBase, nodeOK]
+@[simp] theorem nodeSize_rename (n : Node) (nm : Bytes) : nodeSize (n.rename nm) = nodeSize n := by
+  cases n <;> simp [Node.rename, Node.setBase, nodeSize]
+
 theorem nodeSize_pos (n : Node) : 1 ≤ nodeSize n := by
   cases n <;> simp [nodeSize]
 
@@ -515,12 +522,14 @@ theorem merge_ok (V : Variant) (h9 : V.f9 = true) (sv : Bool) : ∀ fuel,
             · simp only [hlt, if_false]
               have heq : keyCmp t.name t.kind s.name s.kind = 0 := by omega
               have hkind := keyCmp_zero_kind heq
-              obtain ⟨r, e1, hr, ⟨k1, o1, r1⟩, ok1⟩ := ihR pfx t (some s) e (tokensL ts ++ tokensL ss ++ frame)
-                (by simp [nodesSize, sizeO] at hf ⊢; omega) (by intro x hx; simp at hx; subst hx; exact hkind.symm)
-                hts.1 (by simpa [nodeOKO] using hss.1) hk (o.perm (by perm_tok))
+              obtain ⟨r, e1, hr, ⟨k1, o1, r1⟩, ok1⟩ := ihR pfx (t.rename s.name) (some s) e (tokensL ts ++ tokensL ss ++ frame)
+                (by simp [nodesSize, sizeO] at hf ⊢; omega)
+                (by intro x hx; simp at hx; subst hx; simpa using hkind.symm)
+                (by simpa using hts.1) (by simpa [nodeOKO] using hss.1) hk
+                (by rw [tokens_rename]; exact o.perm (by perm_tok))
               obtain ⟨rest, m, e2, hw, ⟨k2, o2, r2⟩, ok2⟩ := ihW pfx ts ss e1 (tokensO r ++ frame)
                 (by simp [nodesSize] at hf ⊢; omega) hts.2 hss.2 k1 (o1.perm (by perm_tok))
-              refine ⟨r.toList ++ rest, m, e2, by simp [hr, hw, bind, Except.bind],
+              refine ⟨r.toList ++ rest, m || (t.name != s.name), e2, by simp [hr, hw, bind, Except.bind],
                 ⟨k2, ?_, by rw [r2, r1]⟩, ?_⟩
               · rw [tokensL_append, tokensL_toList]; exact o2.perm (by perm_tok)
               · rw [nodesOK_append, nodesOK_toList, ok1, ok2]; rfl
